@@ -38,11 +38,15 @@ namespace OpenMEEG::MeshIOs {
 
             unsigned trash;
             fs >> ntriangles >> trash;
+            if (fs.fail())
+                throw OpenMEEG::WrongFileFormat(fname);
 
             Vertices vertices;
             for (unsigned i=0; i<npts; ++i) {
                 Vertex v;
                 fs >> v;
+                if (fs.fail())
+                    throw OpenMEEG::WrongFileFormat(fname);
                 vertices.push_back(v);
             }
             indmap = geom.add_vertices(vertices);
@@ -56,6 +60,8 @@ namespace OpenMEEG::MeshIOs {
                 unsigned trash;
                 TriangleIndices t;
                 fs >> trash >> t[0] >> t[1] >> t[2];
+                if (fs.fail())
+                    throw OpenMEEG::WrongFileFormat(fname);
                 mesh.add_triangle(t,indmap);
             }
         }
